@@ -128,14 +128,20 @@ def run(check, repo: Repo) -> None:
 
     # ---- R2 increment semantics -----------------------------------------------------------------------------
     fa, fb = [a.arg for a in fw.args.args][:2]
-    d = [x for x in definitions(fw, "d") if isinstance(x, ast.AST)]
+    r0 = [n.value for n in ast.walk(fw) if isinstance(n, ast.Return)]
+    arms0, _ = _where_chain(r0[0]) if r0 else ([], None)
+    dvars = {c.left.id for c, _ in arms0 if isinstance(c, ast.Compare) and isinstance(c.left, ast.Name)}
+    if len(dvars) != 1:
+        raise AnalysisError("_find_wrap: the compared difference variable not found")
+    dname = next(iter(dvars))
+    d = [x for x in definitions(fw, dname) if isinstance(x, ast.AST)]
     ok = len(d) == 1 and unparse(d[0]) == f"{fa} - {fb}"
     check.decide(ok, "C17-R2", "_find_wrap: the increment is decided on the raw difference a − b", unparse(d[0]) if d else "", mod.line(fw),
                  fail_detail=f"d = `{unparse(d[0]) if d else '?'}`: the driver adds 2π·inc to the raw input values, so the case split must be on their raw "
                              f"difference — wrapping the operands first corrupts already-unwrapped (or exactly ±π) input")
     r = [n.value for n in ast.walk(fw) if isinstance(n, ast.Return)]
     arms, els = _where_chain(r[0]) if r else ([], None)
-    got = {unparse(c): unparse(v) for c, v in arms}
+    got = {unparse(c).replace(dname, "d", 1) if unparse(c).startswith(dname) else unparse(c): unparse(v) for c, v in arms}
     ok = got == {"d > math.pi": "-1", "d < -math.pi": "1"} and els is not None and unparse(els) == "0"
     check.decide(ok, "C17-R2", "_find_wrap: d > π → −1, d < −π → +1, otherwise 0 (a + 2πk − b ∈ [−π, π] on every arm for |d| < 2π)", str(got), mod.line(fw),
                  fail_detail=f"case split is {got} else {unparse(els) if els is not None else '?'}")
